@@ -209,15 +209,18 @@ def translate_inner(toks, flat, feats, fps):
     params, body, _ = find_fn(toks, 'round_layout_inner')
     fps['round_layout_inner'] = norm_tokens(params) + ' ' + norm_tokens(body)
     pn = param_names(params)
-    if pn != ['tree', 'node_id', 'cumulative_x', 'cumulative_y']:
+    if len(pn) != 4 or len(set(pn)) != 4:
         raise Refuse("round_layout_inner parameters %r" % pn)
+    TREE, NODE, CX, CY = pn        # local names are free; the Gallina parameters are always cumulative_x / cumulative_y
     blk = parse_block(body)
     stmts = list(blk[1])
     if blk[2] is not None:
         stmts.append(('expr', blk[2], blk[3]))
     ex = Exec(flat, 'unrounded_layout')
-    env = {'tree': ('opaque', 'tree'), 'node_id': ('opaque', 'node_id'),
-           'cumulative_x': ('num', 'cumulative_x'), 'cumulative_y': ('num', 'cumulative_y')}
+    env = {TREE: ('opaque', 'tree'), NODE: ('opaque', 'node_id'),
+           CX: ('num', 'cumulative_x'), CY: ('num', 'cumulative_y')}
+    used = {'cumulative_x', 'cumulative_y', 'unrounded_layout'}   # Gallina names taken
+    COUNT = INDEX = None
     final = None          # snapshot handed to set_final_layout
     child_args = None     # terms handed to the recursive call
     child_count_bound = False
@@ -230,14 +233,17 @@ def translate_inner(toks, flat, feats, fps):
             if pat[0] != 'pident':
                 raise Refuse("let pattern")
             nm = pat[1]
-            if rhs == ('un', '*', ('mcall', ('path', ['tree']), 'get_unrounded_layout', [('path', ['node_id'])])):
-                if have_u or not is_path(('path', [nm]), 'unrounded_layout'):
-                    raise Refuse("second / renamed read of the unrounded layout")
+            if rhs == ('un', '*', ('mcall', ('path', [TREE]), 'get_unrounded_layout', [('path', [NODE])])):
+                if have_u:
+                    raise Refuse("second read of the unrounded layout")
                 have_u = True
                 env[nm] = ('lay', 'unrounded_layout')
                 continue
-            if rhs == ('mcall', ('path', ['tree']), 'child_count', [('path', ['node_id'])]) and nm == 'child_count':
+            if rhs == ('mcall', ('path', [TREE]), 'child_count', [('path', [NODE])]):
+                if child_count_bound:
+                    raise Refuse("second child_count")
                 env[nm] = ('opaque', 'child_count')
+                COUNT = nm
                 child_count_bound = True
                 continue
             if rhs[0] == 'path' and len(rhs[1]) == 1 and env.get(rhs[1][0], ('x',))[0] == 'lay':
@@ -248,8 +254,14 @@ def translate_inner(toks, flat, feats, fps):
                 env[nm] = ('lay', None)
                 continue
             t = ex.num(env, rhs)
-            ex.lets.append((nm, t))
-            env[nm] = ('num', nm)
+            # Gallina name of the local: the Rust name, except that the (possibly renamed) parameters keep their fixed names
+            g = {CX: 'cumulative_x', CY: 'cumulative_y'}.get(nm, nm)
+            if (g in used and g not in ('cumulative_x', 'cumulative_y')) or g.startswith('layout_') or not re.match(r'^[a-z_][a-z0-9_]*$', g):
+                raise Refuse("local name %s" % nm)
+            if g in ('cumulative_x', 'cumulative_y') and nm not in (CX, CY):
+                raise Refuse("local name %s" % nm)
+            ex.lets.append((g, t))
+            env[nm] = ('num', g)
             continue
         if st[0] != 'expr':
             raise Refuse("statement %r" % (st[0],))
@@ -285,10 +297,12 @@ def translate_inner(toks, flat, feats, fps):
                     raise Refuse("round_content_size statement %r" % (cst[0],))
                 ex.assign(cenv, cst[1][2], cst[1][3], 'content')
             continue
-        if e[0] == 'mcall' and is_path(e[1], 'tree') and e[2] == 'set_final_layout':
+        if e[0] == 'mcall' and is_path(e[1], TREE) and e[2] == 'set_final_layout':
             if final is not None:
                 raise Refuse("two set_final_layout calls")
-            if e[3] != [('path', ['node_id']), ('un', '&', ('path', ['layout']))] or env.get('layout') != ('lay', None):
+            a = e[3]
+            if len(a) != 2 or a[0] != ('path', [NODE]) or a[1][0] != 'un' or a[1][1] != '&' or a[1][2][0] != 'path' \
+                    or len(a[1][2][1]) != 1 or env.get(a[1][2][1][0]) != ('lay', None):
                 raise Refuse("set_final_layout arguments")
             final = ex.snapshot()
             continue
@@ -296,17 +310,19 @@ def translate_inner(toks, flat, feats, fps):
             if child_args is not None or not child_count_bound:
                 raise Refuse("loop over children")
             pat, it, fb = e[1], e[2], e[3]
-            if pat != ('pident', 'index') or it != ('range', ('lit', '0'), ('path', ['child_count'])):
+            if pat[0] != 'pident' or it != ('range', ('lit', '0'), ('path', [COUNT])):
                 raise Refuse("children loop must be `for index in 0..child_count`")
+            INDEX = pat[1]
             if fb[2] is not None or len(fb[1]) != 2:
                 raise Refuse("children loop body")
             s1, s2 = fb[1]
-            if s1[:3] != ('let', ('pident', 'child'), ('mcall', ('path', ['tree']), 'get_child_id', [('path', ['node_id']), ('path', ['index'])])):
+            if s1[0] != 'let' or s1[1][0] != 'pident' or s1[2] != ('mcall', ('path', [TREE]), 'get_child_id', [('path', [NODE]), ('path', [INDEX])]):
                 raise Refuse("children loop: child lookup")
+            CHILD = s1[1][1]
             if s2[0] != 'expr' or s2[2] or s2[1][0] != 'call' or not is_path(s2[1][1], 'round_layout_inner'):
                 raise Refuse("children loop: recursive call")
             args = s2[1][2]
-            if len(args) != 4 or args[0] != ('path', ['tree']) or args[1] != ('path', ['child']):
+            if len(args) != 4 or args[0] != ('path', [TREE]) or args[1] != ('path', [CHILD]):
                 raise Refuse("children loop: recursive call arguments")
             child_args = (ex.num(env, args[2]), ex.num(env, args[3]))
             continue
